@@ -15,7 +15,8 @@ A_MEM = 'A-MEM: side conditions `rows * columns <= usize::MAX` / `length + C + 3
 PROPS = {
     'C05': {
         'verus': ['encode'],
-        'kani': [],
+        'kani': [{'name': 'k_c05_nucleotide_table', 'kind': 'Kinf'}, {'name': 'k_c05_aminoacid_table', 'kind': 'Kinf'},
+                 {'name': 'k_c05_symbols_indexing', 'kind': 'Kinf'}],
         'native': False,
         'assumptions': [A_E1, A_T1, A_STD1,
                         'A-ABC1: Symbol::from_ascii is specified by (valid_ascii, of_ascii): Ok(of_ascii(c)) on valid bytes, Err(InvalidSymbol(c as char)) otherwise; discharged for Nucleotide and AminoAcid by the complete (all 256 bytes) Kani harnesses',
